@@ -1,10 +1,20 @@
 import MalVerif.Py.AbsLangGraph
 import MalVerif.Py.GenLang.Assocs
 import MalVerif.Proofs.LangGraphLemmas
+import MalVerif.Proofs.LangGraphOrder
 /-!
 # Tie: translated language-graph queries (`GenLang/Assets.lean`, `GenLang/Assocs.lean`)  =  `Model/Inherit.lean`
 (`Lang.isSub`), `Model/LangGraph.lean` (`LG.supers`, `LG.lookupAssoc`) under the abstraction `RepG`/`RepA`
 of `Py/AbsLangGraph.lean`
+
+* facts about a represented heap: `repG_*` (names are unique keys, `refOf` finds the object of a declared name,
+  `repG_lgAssetEq_iff`: `==` on asset objects compares names — the parameter `deepEq` is never consulted);
+* `is_subasset_of_tie` (loop invariant `sub_loop`: the work list is `[object of the k-th chain element]`),
+  `get_all_superassets_tie` (`sup_loop`), `get_asset_by_name_eq` / `get_asset_by_name_tie`;
+* `contains_fieldname_eq`, `get_opposite_fieldname_eq`, `contains_asset_tie`, `get_opposite_asset_tie`;
+* `lookup_tie_find` (on the heap), `lookup_tie` (against `LG.lookupAssoc` over the association nodes);
+* `get_all_subassets_tie` (a work-list walk over a forest: `WInv`, `Forest`, `winv_step`, `walk_loop`);
+* `repG_heapOfLang`, `repA_heapOfLang`: the heap `heapOfLang L nodes` is represented.
 -/
 namespace MalVerif.Py.TieLangGraph
 open MalVerif MalVerif.Py MalVerif.Py.LSpec MalVerif.Py.GenLang MalVerif.LG
@@ -542,6 +552,249 @@ theorem lookup_tie {nodes : List AssocDecl} (hG : RepG s L) (hA : RepA s L nodes
         (lookupPredB_agrees hA f1 f2 t1 t2)]
 
 end rep
+
+/-! ## `get_all_subassets`: a work-list walk over a forest -/
+
+/-- the body of the translated `while current_assets:` of `get_all_subassets`, for an arbitrary child function -/
+def walkBody (kids : GARef → List GARef) (_x : Nat) (st : List GARef × List GARef) :
+    Except PyErr (ForInStep (List GARef × List GARef)) :=
+  if (!!st.1.isEmpty) = true then pure (ForInStep.done (st.1, st.2))
+  else do
+    let p_1 ← pyPop st.1
+    pure (ForInStep.yield (p_1.2 ++ kids p_1.1, st.2 ++ kids p_1.1))
+
+theorem pyPop_snoc {α} (l : List α) (x : α) : pyPop (l ++ [x]) = .ok (x, l) := by
+  simp [pyPop]
+
+/-- the invariant of the walk from `a`: `W` work list, `S` result list; `U` the universe (all asset objects), `D`
+"is a descendant of `a`" -/
+structure WInv (kids : GARef → List GARef) (U : List GARef) (a : GARef) (D : GARef → Prop)
+    (W S : List GARef) : Prop where
+  wS : ∀ y ∈ W, y ∈ S
+  wnd : W.Nodup
+  snd : S.Nodup
+  sU : ∀ y ∈ S, y ∈ U
+  sD : ∀ y ∈ S, D y
+  done : ∀ y ∈ S, y ∉ W → ∀ z ∈ kids y, z ∈ S
+  todo : ∀ y ∈ W, ∀ z ∈ kids y, z ∉ S
+  par : ∀ z ∈ S, z = a ∨ ∃ y ∈ S, z ∈ kids y
+  aS : a ∈ S
+
+/-- what the walk needs of the child function: a forest below `a` -/
+structure Forest (kids : GARef → List GARef) (U : List GARef) (a : GARef) (D : GARef → Prop) : Prop where
+  nd : ∀ x ∈ U, (kids x).Nodup
+  inU : ∀ x ∈ U, ∀ z ∈ kids x, z ∈ U
+  down : ∀ x ∈ U, D x → ∀ z ∈ kids x, D z
+  uniq : ∀ x ∈ U, ∀ y ∈ U, ∀ z, z ∈ kids x → z ∈ kids y → x = y
+  root : ∀ x ∈ U, D x → a ∉ kids x
+
+theorem winv_step {kids U a D} (hf : Forest kids U a D) {W S : List GARef} {x : GARef}
+    (h : WInv kids U a D (W ++ [x]) S) : WInv kids U a D (W ++ kids x) (S ++ kids x) := by
+  have hxS : x ∈ S := h.wS x (by simp)
+  have hxW : x ∉ W := by
+    have := h.wnd
+    rw [List.nodup_append] at this
+    intro hx; exact this.2.2 x hx x (by simp) rfl
+  have hkx : ∀ z ∈ kids x, z ∉ S := h.todo x (by simp)
+  have hxU : x ∈ U := h.sU x hxS
+  refine ⟨?_, ?_, ?_, ?_, ?_, ?_, ?_, ?_, List.mem_append_left _ h.aS⟩
+  · intro y hy
+    rcases List.mem_append.1 hy with hy | hy
+    · exact List.mem_append_left _ (h.wS y (List.mem_append_left _ hy))
+    · exact List.mem_append_right _ hy
+  · rw [List.nodup_append]
+    refine ⟨(List.nodup_append.1 h.wnd).1, hf.nd x hxU, ?_⟩
+    intro y hy z hz hyz
+    subst hyz
+    exact hkx y hz (h.wS y (List.mem_append_left _ hy))
+  · rw [List.nodup_append]
+    refine ⟨h.snd, hf.nd x hxU, ?_⟩
+    intro y hy z hz hyz
+    subst hyz
+    exact hkx y hz hy
+  · intro y hy
+    rcases List.mem_append.1 hy with hy | hy
+    · exact h.sU y hy
+    · exact hf.inU x hxU y hy
+  · intro y hy
+    rcases List.mem_append.1 hy with hy | hy
+    · exact h.sD y hy
+    · exact hf.down x hxU (h.sD x hxS) y hy
+  · intro y hy hyW z hz
+    rcases List.mem_append.1 hy with hy | hy
+    · by_cases hyx : y = x
+      · subst hyx; exact List.mem_append_right _ hz
+      · have : y ∉ W ++ [x] := by
+          intro hm
+          rcases List.mem_append.1 hm with hm | hm
+          · exact hyW (List.mem_append_left _ hm)
+          · exact hyx (by simpa using hm)
+        exact List.mem_append_left _ (h.done y hy this z hz)
+    · exact absurd (List.mem_append_right _ hy) hyW
+  · intro y hy z hz hzS
+    rcases List.mem_append.1 hy with hy | hy
+    · -- `y` was already waiting
+      have hyx : y ≠ x := fun e => hxW (e ▸ hy)
+      rcases List.mem_append.1 hzS with hzS | hzS
+      · exact h.todo y (List.mem_append_left _ hy) z hz hzS
+      · exact hyx (hf.uniq y (h.sU y (h.wS y (List.mem_append_left _ hy))) x hxU z hz hzS)
+    · -- `y` is a child of `x`, so not in `S`
+      have hyS : y ∉ S := hkx y hy
+      rcases List.mem_append.1 hzS with hzS | hzS
+      · rcases h.par z hzS with rfl | ⟨y', hy', hzy'⟩
+        · exact hf.root y (hf.inU x hxU y hy) (hf.down x hxU (h.sD x hxS) y hy) hz
+        · have := hf.uniq y (hf.inU x hxU y hy) y' (h.sU y' hy') z hz hzy'
+          subst this
+          exact hyS hy'
+      · have := hf.uniq y (hf.inU x hxU y hy) x hxU z hz hzS
+        subst this
+        exact hyS hxS
+  · intro z hz
+    rcases List.mem_append.1 hz with hz | hz
+    · rcases h.par z hz with e | ⟨y, hy, hzy⟩
+      · exact .inl e
+      · exact .inr ⟨y, List.mem_append_left _ hy, hzy⟩
+    · exact .inr ⟨x, List.mem_append_left _ hxS, hz⟩
+
+theorem walk_loop {kids U a D} (hf : Forest kids U a D) :
+    ∀ (l : List Nat) (W S : List GARef), WInv kids U a D W S → U.length + 1 + W.length ≤ l.length + S.length →
+      ∃ S', forIn l (W, S) (walkBody kids) = .ok ([], S') ∧ WInv kids U a D [] S' := by
+  intro l
+  induction l with
+  | nil =>
+    intro W S h hlen
+    have : S.length ≤ U.length := List.Nodup.length_le_of_subset h.snd (fun y hy => h.sU y hy)
+    simp at hlen
+    omega
+  | cons i l ih =>
+    intro W S h hlen
+    rcases List.eq_nil_or_concat W with rfl | ⟨W', x, rfl⟩
+    · exact ⟨S, rfl, h⟩
+    · rw [List.concat_eq_append] at h hlen ⊢
+      have hbody : walkBody kids i (W' ++ [x], S) = .ok (ForInStep.yield (W' ++ kids x, S ++ kids x)) := by
+        simp [walkBody, pyPop_snoc, bind, Except.bind, pure, Except.pure]
+      rw [List.forIn_cons, hbody]
+      simp only [bind, Except.bind]
+      refine ih _ _ (winv_step hf h) ?_
+      simp only [List.length_append, List.length_cons, List.length_nil] at hlen ⊢
+      omega
+
+section subs
+variable {s : GH} {L : Lang}
+
+/-- the object `x` is listed as super asset of the object `z` iff `z`'s type extends `x`'s -/
+theorem mem_super_assets_iff (h : RepG s L) {z x : GARef} (hz : z ∈ s.assets) :
+    x ∈ (s.asset z).super_assets ↔ x ∈ s.assets ∧ Extends L (gname s z) (gname s x) := by
+  rw [h.supers z hz]
+  obtain ⟨d, hd, _⟩ := repG_decl_of_mem h hz
+  simp only [superOf, hd, Option.bind_some, Option.mem_toList]
+  constructor
+  · intro hx
+    cases hsa : d.superAsset with
+    | none => rw [hsa] at hx; cases hx
+    | some t =>
+      rw [hsa] at hx
+      obtain ⟨hxU, hn⟩ := (repG_refOf_eq_some_iff h t x).1 hx
+      exact ⟨hxU, d, hd, by rw [hsa, hn]⟩
+  · rintro ⟨hxU, d', hd', hsa⟩
+    rw [hd] at hd'; cases hd'
+    rw [hsa]
+    exact repG_refOf_gname h hxU
+
+theorem mem_sub_assets_iff (h : RepG s L) {z x : GARef} (hx : x ∈ s.assets) :
+    z ∈ (s.asset x).sub_assets ↔ z ∈ s.assets ∧ Extends L (gname s z) (gname s x) := by
+  rw [h.subs x hx, List.mem_filter, List.contains_iff_mem]
+  constructor
+  · rintro ⟨hz, hm⟩; exact ⟨hz, ((mem_super_assets_iff h hz).1 hm).2⟩
+  · rintro ⟨hz, he⟩; exact ⟨hz, (mem_super_assets_iff h hz).2 ⟨hx, he⟩⟩
+
+theorem isSub_of_extends (h : RepG s L) (hac : Acyclic L) {z x : GARef} (hz : z ∈ s.assets) (hx : x ∈ s.assets)
+    (he : Extends L (gname s z) (gname s x)) : L.isSub (gname s z) (gname s x) = true := by
+  obtain ⟨dz, hdz, _⟩ := repG_decl_of_mem h hz
+  obtain ⟨dx, hdx, _⟩ := repG_decl_of_mem h hx
+  exact (isSub_iff L _ _ (hac _)).2 ⟨by rw [hdz]; rfl, by rw [hdx]; rfl, .single he⟩
+
+/-- the `sub_assets` lists form a forest below every asset object of an acyclic represented graph -/
+theorem forest_sub_assets (h : RepG s L) (hac : Acyclic L) (a : GARef) :
+    Forest (fun x => (s.asset x).sub_assets) s.assets a (fun y => L.isSub (gname s y) (gname s a) = true) where
+  nd := by
+    intro x hx
+    rw [h.subs x hx]
+    exact List.Nodup.sublist List.filter_sublist h.refs_nodup
+  inU := fun x hx z hz => ((mem_sub_assets_iff h hx).1 hz).1
+  down := by
+    intro x hx hD z hz
+    obtain ⟨hzU, he⟩ := (mem_sub_assets_iff h hx).1 hz
+    exact isSub_trans L _ _ _ (hac _) (isSub_of_extends h hac hzU hx he) hD
+  uniq := by
+    intro x hx y hy z hzx hzy
+    obtain ⟨_, d, hd, hsa⟩ := (mem_sub_assets_iff h hx).1 hzx
+    obtain ⟨_, d', hd', hsa'⟩ := (mem_sub_assets_iff h hy).1 hzy
+    rw [hd] at hd'; cases hd'
+    rw [hsa] at hsa'
+    exact repG_gname_inj h hx hy (Option.some.inj hsa')
+  root := by
+    intro x hx hD hax
+    obtain ⟨_, he⟩ := (mem_sub_assets_iff h hx).1 hax
+    exact (acyclic_iff_no_cycle L).1 hac _ (TC.of_head_rtc he (isSub_rtc hD).2)
+
+/-- a result list that contains `a` and is closed under `sub_assets` contains every descendant -/
+theorem closed_contains_desc (h : RepG s L) {a : GARef} {S : List GARef} (haS : a ∈ S)
+    (hS : ∀ y ∈ S, y ∈ s.assets) (hcl : ∀ y ∈ S, ∀ z ∈ (s.asset y).sub_assets, z ∈ S) :
+    ∀ t u, RTC (Extends L) t u → u = gname s a → ∀ c ∈ s.assets, gname s c = t → c ∈ S := by
+  intro t u hr
+  induction hr with
+  | refl =>
+    intro hu c hc hn
+    rw [repG_gname_inj h hc (hS a haS) (hn.trans hu)]
+    exact haS
+  | @head t y u he _ ih =>
+    intro hu c hc hn
+    subst hn
+    obtain ⟨d, hd, hsa⟩ := he
+    have hdecl : (L.findAsset y).isSome = true := (supersOk_iff L).1 h.supers_ok d (findAsset_mem hd) y hsa
+    have hsome := (repG_refOf_isSome_iff h y).2 hdecl
+    cases hrf : refOf s y with
+    | none => rw [hrf] at hsome; cases hsome
+    | some r =>
+      obtain ⟨hr, hn⟩ := (repG_refOf_eq_some_iff h y r).1 hrf
+      have hrS := ih hu r hr hn
+      exact hcl r hrS c ((mem_sub_assets_iff h hr).2 ⟨hc, d, hd, by rw [hsa, hn]⟩)
+
+/-- **tie for `LanguageGraphAsset.get_all_subassets`**: in an acyclic represented graph it returns (never
+raises, never exhausts the unrolling bound) a duplicate-free list of asset objects of the graph: exactly those
+whose type is the asset's type or extends it (the hand model's `isSub`) -/
+theorem get_all_subassets_tie (h : RepG s L) (hac : Acyclic L) {a : GARef} (ha : a ∈ s.assets) :
+    ∃ l, lgasset_get_all_subassets s a = .ok l ∧ l.Nodup ∧ (∀ c ∈ l, c ∈ s.assets) ∧
+      ∀ c ∈ s.assets, (c ∈ l ↔ L.isSub (gname s c) (gname s a) = true) := by
+  have hf := forest_sub_assets h hac a
+  obtain ⟨da, hda, _⟩ := repG_decl_of_mem h ha
+  have hDa : L.isSub (gname s a) (gname s a) = true := isSub_refl L _ (by rw [hda]; rfl)
+  have h0 : WInv (fun x => (s.asset x).sub_assets) s.assets a (fun y => L.isSub (gname s y) (gname s a) = true)
+      [a] [a] := by
+    refine ⟨fun y hy => hy, by simp, by simp, ?_, ?_, ?_, ?_, ?_, by simp⟩
+    · intro y hy; rw [List.mem_singleton.1 hy]; exact ha
+    · intro y hy; rw [List.mem_singleton.1 hy]; exact hDa
+    · intro y hy hn; exact absurd hy hn
+    · intro y hy z hz hzS
+      rw [List.mem_singleton.1 hy] at hz
+      rw [List.mem_singleton.1 hzS] at hz
+      exact hf.root a ha hDa hz
+    · intro z hz; exact .inl (List.mem_singleton.1 hz)
+  obtain ⟨S', hloop, hinv⟩ := walk_loop hf (List.range (pyWhileFuel s)) [a] [a] h0
+    (by simp [pyWhileFuel])
+  refine ⟨S', ?_, hinv.snd, hinv.sU, ?_⟩
+  · unfold lgasset_get_all_subassets
+    show (forIn (List.range (pyWhileFuel s)) ([a], [a]) (walkBody (fun x => (s.asset x).sub_assets)) >>= _) = _
+    rw [hloop]
+    rfl
+  · intro c hc
+    constructor
+    · exact hinv.sD c
+    · intro hD
+      exact closed_contains_desc h hinv.aS hinv.sU (fun y hy => hinv.done y hy (by simp)) _ _ (isSub_rtc hD).2 rfl c hc rfl
+
+end subs
 /-! ## `heapOfLang` is represented -/
 section hol
 variable {L : Lang}
